@@ -22,6 +22,17 @@ for name in sorted(os.listdir(os.path.join(ROOT, "seeded"))):
     res = ("**caught** (exit 1; classes: `%s`)" % cls) if rc == "1" else ("MISSED (exit %s)" % rc)
     rows.append("| %s | %s | %s | %s |" % (name, summ.replace("|", "/"), chk, res))
 sec = sec.replace("@@SWEEP@@", "\n".join(rows))
+kf = json.load(open(os.path.join(ROOT, "known_findings.json")))["findings"]
+fx = ["| property | commit | what failed (input / call site) |", "|---|---|---|"]
+for f in kf:
+    if f["status"] == "fixed":
+        what = re.sub(r"^fixed: property=\S+ (\S+ )?", "", f["what"])
+        fx.append("| %s | %s | %s |" % (f["property"], f.get("commit", "")[:7], what.replace("|", "/")))
+kn = ["| property | key | what fails | why not repaired here |", "|---|---|---|---|"]
+for f in kf:
+    if f["status"] == "known":
+        kn.append("| %s | `%s` | %s | %s |" % (f["property"], f["key"], f["what"].replace("|", "/"), f.get("why_not_repaired", "")))
+sec = sec.replace("@@FIXED@@", "\n".join(fx)).replace("@@KNOWN@@", "\n".join(kn))
 path = os.path.join(ROOT, "DESIGN.md")
 s = open(path).read()
 start = s.find("## 11. As built (round 1)")
